@@ -38,7 +38,7 @@ def plan(tier):
 
 
 def required_counters(tier):
-    return [f"sub:{s}" for s in set(SUBS)] + ["offset_magnitude", "ddof0", "masked", "unused_category_or_emptied_group"]
+    return [f"sub:{s}" for s in set(SUBS)] + ["offset_magnitude", "ddof0", "masked", "unused_category_or_emptied_group", "multi_column_apply"]
 
 
 def features(case):
@@ -127,6 +127,34 @@ def check(case, ctx):
                 fails.append({"monitor": "c16.var", "sig": sig, "detail": f"{sub}(ddof={ddof}) dtype={dtype} label {k!r}: library={g!r} two-pass={e!r} ({'sqrt ' if sub == 'std' else ''}bound {tolv:.3g}); values={xs[:8]}"})
                 break
         return fails
+
+    if sub in ("median", "quantile", "apply_scalar") and case.get("two_cols") and np.dtype(dtype).kind in "fiu":
+        # several value columns at once: each column must equal the single-column call (groups without rows are skipped
+        # per column, so the flat result list has to be cut correctly)
+        ctx.count("multi_column_apply")
+        a = gen.val_np(case["val"])
+        b = a[::-1].copy()
+        frame = pd.DataFrame({"a": a, "b": b}, index=idx if case.get("vc") == "pd" or (case["mask"] is not None and case["mask"]["kind"] == "bool_series") else None)
+        def one(x):
+            if sub == "median":
+                return lib.call(gb.median, x, mask=mask)
+            if sub == "quantile":
+                return lib.call(gb.quantile, x, q=case["params"]["q"], mask=mask)
+            return lib.call(gb.apply, x, {**FSCALAR}[case["params"]["func"]], mask=mask)
+        both, ra, rb = one(frame), one(a), one(b)
+        if not (lib.raised(ra) or lib.raised(rb)):
+            if lib.raised(both):
+                fails.append({"monitor": "c16.columns", "sig": f"{sig}|raised", "detail": f"{sub} on two value columns raised {both!r} while each column alone returns"})
+            elif not isinstance(both, pd.DataFrame) or both.shape[1] != 2:
+                fails.append({"monitor": "c16.columns", "sig": f"{sig}|shape", "detail": f"{sub} on two value columns returned {type(both).__name__} {getattr(both, 'shape', None)}"})
+            else:
+                for j, single in enumerate((ra, rb)):
+                    d = ops.diff_red(ops.normalise(both.iloc[:, j], "red"), ops.normalise(single, "red"), 0.0, what=f"{sub}: column {j} of the two-column call vs the single-column call")
+                    if d:
+                        fails.append({"monitor": "c16.columns", "sig": sig, "detail": d})
+                        break
+        if fails:
+            return fails
 
     if sub in ("median", "quantile"):
         q = case["params"].get("q")
@@ -308,9 +336,7 @@ def gen_case(rng, dtypes):
         case["params"] = {"with_values": bool(rng.random() < 0.5)}
         if case["params"]["with_values"]:
             val["vals"] = [None if v is None else abs(v) + 1 for v in val["vals"]]
-    if sub in ("median", "quantile") or sub.startswith("apply"):
-        if mask is not None and mask["kind"] == "bool_series":
-            pass
+    case["two_cols"] = bool(rng.random() < 0.35)
     return case
 
 
